@@ -102,9 +102,13 @@ FullName(n, origin) ==
     IF IsAbs(n) THEN Ok(n)
     ELSE IF origin[1] = "none" \/ ~IsAbs(origin[2]) THEN Err("NeedAbsoluteNameOrOrigin")
     ELSE Ok(n \o origin[2])
+(* "no operation ever yields an encoded length over 255 octets; it raises instead": the
+   relative name + origin is a name of its own and must be Valid (this is Derelativize) *)
 ToWire(n, origin, canon) ==
     LET f == FullName(n, origin)
-    IN  IF IsOk(f) THEN Ok(Encode(IF canon THEN LowerAll(f[2]) ELSE f[2])) ELSE f
+    IN  IF ~IsOk(f) THEN f
+        ELSE IF ~Valid(f[2]) THEN Err("NameTooLong")
+        ELSE Ok(Encode(IF canon THEN LowerAll(f[2]) ELSE f[2]))
 
 (* Compression (RFC 1035 4.1.4).  The table maps (folded) names to the offset of an
    earlier occurrence.  Writing name n at offset p: labels are written literally until the
